@@ -278,7 +278,13 @@ def gen_sem(seed: int) -> dict:
             f = funcs[fi]
             body = r.choice([['ok', r.choice([0.1, 0.5, 1.0, 1.5])], ['ok', 0.0], ['raise', r.choice([0.0, 0.3])], ['overrun', 0.5]])
             callers.append({'f': fi, 'inst': r.randrange(2), 'arrive': round(r.choice([0.0, 0.0, 0.1, 0.5, 1.0, r.random() * 3]), 6), 'body': body,
-                            'cancel_at': (round(r.random() * 3, 6) if r.random() < 0.2 else None)})
+                            'cancel_at': None})
+            x = r.random()
+            if x < 0.2:
+                callers[-1]['cancel_at'] = round(r.random() * 3, 6)
+            elif x < 0.3:
+                # cancelled a moment after it arrived (while acquiring / just after acquiring / as the body starts)
+                callers[-1]['cancel_at'] = round(callers[-1]['arrive'] + r.choice([0.0, 0.0005, 0.001, 0.0015]), 6)
         loops.append({'callers': callers})
     return {'v': 1, 'world': 'sem', 'profile': 'sem', 'seed': seed, 'funcs': funcs, 'loops': loops}
 
